@@ -99,6 +99,17 @@ End Loop.
 
 Definition fuel_of (h : header) : nat := maxr h + 3.
 
+Definition pid (p : prog) : nat := match p with Node h _ => nid h end.
+
+(* Two members of ONE group that carry the same node id stand for the same argument set (the harness gives
+   equal ids only to equal specs, i.e. to calls with the same call_id).  task.py distribute_calls, in the
+   dev_mode_force_sync_tasks branch, makes every element of the parallelized list its own fresh invocation
+   (generated fact gen_sync_group_own_invocations); were it to hand the group the invocation of an earlier
+   element with the same arguments instead, that element's body would not run again (a ConcurrentInvocation
+   caches its result): `shared_sync seen p` = member p re-uses the invocation of an earlier member. *)
+Definition shared_sync (seen : list nat) (p : prog) : bool :=
+  negb gen_sync_group_own_invocations && existsb (Nat.eqb (pid p)) seen.
+
 (* ------------------------------------------------------------------ sync development mode *)
 Fixpoint sync_prog (p : prog) : res :=
   match p with
@@ -118,21 +129,23 @@ with sync_stmt (s : stmt) : outcome * list nat :=
   match s with
   | SCall p => let x := sync_prog p in (out x, log x)
   | SFire p => (Val 0, [])                       (* never read => never executed *)
-  | SGroup g => sync_group g
+  | SGroup g => sync_group [] g
   | SDirect p =>
       if gen_direct_returns_result then let x := sync_prog p in (out x, log x)
       else (Exc type_error, [])
   | SDirectPar g =>
-      if gen_direct_par_aggregates then sync_group g else (Exc type_error, [])
+      if gen_direct_par_aggregates then sync_group [] g else (Exc type_error, [])
   end
-with sync_group (g : progs) : outcome * list nat :=     (* the lazy `results` generator *)
+with sync_group (seen : list nat) (g : progs) {struct g} : outcome * list nat :=
+  (* the lazy `results` generator; seen = ids of the earlier members of this group *)
   match g with
   | PNil => (Val 0, [])
   | PCons p r =>
       let x := sync_prog p in
+      let lg := if shared_sync seen p then [] else log x in   (* a shared invocation does not run again *)
       match out x with
-      | Val v => let c := sync_group r in (addv v (fst c), log x ++ snd c)
-      | o => (o, log x)
+      | Val v => let c := sync_group (pid p :: seen) r in (addv v (fst c), lg ++ snd c)
+      | o => (o, lg)
       end
   end.
 
@@ -187,7 +200,8 @@ End Dist.
 
 (* ------------------------------------------------------------------ the guard of the equivalence:
    every launched invocation's result is requested — no fire-and-forget call, and in a group no
-   member after one that fails (the lazy generator stops there). *)
+   member after one that fails (the lazy generator stops there).  Repeated members (equal ids) are NOT
+   excluded: each element of a group is its own invocation in both modes. *)
 Definition succeeds (p : prog) : bool :=
   match out (sync_prog p) with Val _ => true | _ => false end.
 
